@@ -39,7 +39,8 @@ for p in patches:
             ent['demo_exit_with_patch'] = dm.returncode
             dm0 = subprocess.run(['/venv/bin/python', demo, '/repo'], capture_output=True, text=True, cwd=d, env=dict(os.environ, PYTHONDONTWRITEBYTECODE='1'))
             ent['demo_exit_unpatched'] = dm0.returncode
-        for cid in (ids if ALL else [pid]):
+        also = [a.split('=')[1] for a in sys.argv[1:] if a.startswith('--also=')]
+        for cid in (ids if ALL else [pid] + also):
             t0 = time.time()
             c = subprocess.run([os.path.join(V, 'check'), cid, '--tier', os.environ.get('TIER', 'quick')],
                                env=dict(os.environ, PROPKA_REPO=w, VERIF_EVIDENCE_DIR=os.path.join(d, 'evidence')), capture_output=True, text=True)
